@@ -431,8 +431,8 @@ func checkProperty(prop, only string) int {
 	known := loadKnown()
 	var results []*HarnessResult
 	perH := cfg.timeout / time.Duration(len(names))
-	if perH < 90*time.Second && os.Getenv("GOSYM_TIMEOUT_S") == "" {
-		perH = 90 * time.Second
+	if perH < 120*time.Second && os.Getenv("GOSYM_TIMEOUT_S") == "" {
+		perH = 120 * time.Second
 	}
 	for _, n := range names {
 		h := &Harness{ID: n, Prop: prop, Fn: ld.harness[n], Unwind: 64, MaxPaths: cfg.maxPaths, Budget: cfg.budget, HangIsViolation: harnessComment(ld, n, "// hang: violation")}
